@@ -113,7 +113,7 @@ def check(ctx, lib, roles, deciders, want=("capture", "verbose", "colour", "esca
                 node = g.operand_node(body, term["args"][1])
                 sinks.append(("colour", "%s: colour argument of %s #bb%d" % (body.path, tr.path, blk), node, body.loc(term.get("line"))))
                 n += 1
-            ctx.floor(rid, "call sites of the colour-selecting renderer", n, 29)
+            ctx.floor(rid, "call sites of the colour-selecting renderer", n, 8)
     if "capture" in want:
         for fn, key in (deciders or {}).items():
             node = atom_node(lib, fn, key)
@@ -121,7 +121,7 @@ def check(ctx, lib, roles, deciders, want=("capture", "verbose", "colour", "esca
                 ctx.undecided(rid, fn, "cannot map the group-kind decider %s to a value-flow node" % (key,))
                 continue
             sinks.append(("capture", "%s: boolean deciding the group kind" % fn, node, lib.body(fn).loc()))
-        ctx.floor(rid, "group-kind deciders", len(deciders or {}), 5)
+        ctx.floor(rid, "group-kind deciders", len(deciders or {}), 1)
     if "verbose" in want:
         n = 0
         for b in lib.bodies:
@@ -136,7 +136,7 @@ def check(ctx, lib, roles, deciders, want=("capture", "verbose", "colour", "esca
                             node = g.operand_node(b, s["rv"]["ops"][i])
                             sinks.append(("verbose", "%s: line-break flag of Component::%s" % (b.path, v), node, b.loc(s.get("line"))))
                             n += 1
-        ctx.floor(rid, "constructions of components with a line-break flag", n, 20)
+        ctx.floor(rid, "constructions of components with a line-break flag", n, len(spec["component_verbose_field"]))
     if "escape" in want or "surrogate" in want:
         from .C01 import find_escape_entry
         for S in find_escape_entry(lib):
